@@ -220,6 +220,49 @@ def store_targets():
             Target('mlresult_stats', [Fn('mlresult_stats', R, 'stats', flt='nano::ml::result_t::stats', select=NPARAMS(1), **kw)], S)]
 
 
+# ------------------------------------------------------------------------------------------------ try_merge (sum preservation of merge)
+def dyn_cast_hook(P, n):
+    """dynamic_cast<const K*>(p) -> nv_dyn_cast(p, NV_KIND_<K>) for the weak-learner kinds that merge coefficient-wise"""
+    from cxx2c import qual
+    if n.get('kind') != 'CXXDynamicCastExpr':
+        return None
+    q = qual(n['type'])
+    kind = 'NV_KIND_TABLE' if 'table_wlearner_t' in q else 'NV_KIND_AFFINE' if 'affine_wlearner_t' in q else None
+    if kind is None:
+        if 'wlearner_t' not in q:
+            return None
+        kind = 'NV_KIND_ANY'      # a base class of both kinds: every learner of the model qualifies
+    P.note(f'dynamic_cast<{q}> -> nv_dyn_cast(.., {kind})')
+    return f'nv_dyn_cast({P.expr(n["inner"][0])}, {kind})'
+
+
+def merge_targets():
+    MH = 'specs/C11/merge.h'
+    WLK = r'^nano::(wlearner_t|single_feature_wlearner_t|table_wlearner_t|affine_wlearner_t)$'
+    kw = dict(self_struct='struct nv_wl', hooks=[dyn_cast_hook],
+              types=[(WLK, 'struct nv_wl'), (r'^nano::rwlearner_t$|^std::unique_ptr<nano::wlearner_t', 'struct nv_rwl'),
+                     (r'^nano::tensor4d_t$|^nano::tensor_t<nano::tensor_vector_storage_t, double, 4', 'struct nv_t4'),
+                     (r'^nano::(hashes_t|indices_t)$|^nano::tensor_t<nano::tensor_vector_storage_t, (unsigned long|long), 1', 'struct nv_tid'),
+                     (r'^Eigen::(MatrixBase<)?Eigen::Map<(const )?Eigen::Matrix<double, -1, 1|^Eigen::Map<(const )?Eigen::Matrix<double, -1, 1', 'struct nv_t4v'),
+                     (r'^nano::tensor_dims_t<4>$|^std::array<long, 4', 'uint64_t')],
+              calls=[(r'^operator==\|.*std::array<long, 4', '({0} == {1})'), (r'^operator==\|.*\|nano::tensor_t<nano::tensor_vector_storage_t, (unsigned long|long), 1', 'nv_tid_eq({&0}, {&1})'),
+                     (r'^operator\+=\|.*\|Eigen::MatrixBase<Eigen::Map<Eigen::Matrix<double, -1, 1', 'nv_t4v_add({0}, {1})')],
+              members=[(r'^get\|std::unique_ptr<nano::wlearner_t', 'nv_rwl_get'), (r'^dims\|nano::tensor_t<nano::tensor_vector_storage_t, double, 4|^dims\|nano::tensor_base_t<double, 4', 'nv_t4_dims({self})'),
+                       (r'^vector\|nano::tensor_t<nano::tensor_vector_storage_t, double, 4', 'nv_t4_vector'),
+                       (r'^size\|nano::tensor_t<nano::tensor_vector_storage_t, (unsigned long|long), 1|^size\|nano::tensor_base_t<(unsigned long|long), 1', 'nv_tid_size'),
+                       (r'^hashes\|', 'table_hashes'), (r'^hash2tables\|', 'table_hash2tables'), (r'^feature\|', 'sfw_feature'), (r'^tables\|', 'sfw_tables'),
+                       (r'^do_try_merge\|', 'nv_do_try_merge')])
+    T, A, S = 'src/wlearner/table.cpp', 'src/wlearner/affine.cpp', 'src/wlearner/single.cpp'
+    dtm = lambda: Fn('sfw_do_try_merge', S, 'do_try_merge', flt='single_feature_wlearner_t::do_try_merge', **kw)
+    acc = lambda tu: [Fn('sfw_feature', tu, 'feature', flt='single_feature_wlearner_t::feature', **kw), Fn('sfw_tables', tu, 'tables', flt='single_feature_wlearner_t::tables', **kw)]
+    tacc = lambda: [Fn('table_hashes', T, 'hashes', flt='table_wlearner_t::hashes', **kw), Fn('table_hash2tables', T, 'hash2tables', flt='table_wlearner_t::hash2tables', **kw)]
+    out = [Target('sfw_do_try_merge', [dtm()], MH)]
+    out += [Target(f.cname, [f], MH) for f in acc(S) + tacc()]
+    out.append(Target('table_try_merge', [Fn('table_try_merge', T, 'try_merge', flt='table_wlearner_t::try_merge', **kw), dtm()] + acc(T) + tacc(), MH, replace=['sfw_do_try_merge']))
+    out.append(Target('affine_try_merge', [Fn('affine_try_merge', A, 'try_merge', flt='affine_wlearner_t::try_merge', **kw), dtm()] + acc(A), MH, replace=['sfw_do_try_merge']))
+    return out
+
+
 def done_fn():
     return Fn('early_stopping_done', 'src/gboost/early_stopping.cpp', 'done', flt='early_stopping_t::done',
               self_struct='struct nv_early_stopping', types=TYPES,
@@ -232,7 +275,7 @@ def build(tier):
     targets += boost_targets()
     targets += fit_targets(done_fn(), [f() for f in boost_fns()])
     targets += average_targets()
-    targets += util_targets() + store_targets()
+    targets += util_targets() + store_targets() + merge_targets()
     return {
         'targets': targets, 'vcs': [],
         'decided': ['early-stopping monitor transition = specification, for every observation and prior state; constructor (round 0, value +max, given snapshot) and round() / value() / values() accessors',
@@ -245,7 +288,9 @@ def build(tier):
                     'gboost_model_t::fit fold averaging: bias = zero + bias of extra(optimum_trial, fold) for every fold exactly once, then times 1/folds once; m_wlearners = cleared + exactly one clone of every learner of every fold; '
                     'after merging every learner scaled by 1/folds exactly once; the final statistics stored by fit_result.store are evaluated on predictions of the FINAL model and selected by the samples given to fit(), stored once',
                     'gboost::mean_error / mean_loss: row 0 resp. 1, every listed sample exactly once in list order from 0.0, divided by max(#samples, 1)',
-                    'ml::result_t::store(values, extra) / stats(value): error row -> m_optims row 0, loss row -> row 1; errors read row 0, losses row 1'],
+                    'ml::result_t::store(values, extra) / stats(value): error row -> m_optims row 0, loss row -> row 1; errors read row 0, losses row 1',
+                    'try_merge step of wlearner::merge (sum preservation): do_try_merge adds the other tables exactly when feature and table dimensions agree, else changes nothing; '
+                    'table_wlearner_t / affine_wlearner_t::try_merge attempt it only with a learner of the same kind, its feature and its tables, and for look-up tables only with equal label hashes AND equal hash -> table mapping'],
         'not_decided': ['statistics equal those recomputed from scratch by predicting (numeric equality through loss/predict)',
                         'the linear-model side of the statement (linear_t::fit, src/linear/util.cpp)',
                         'history lemma (induction over the history from the transition contract) is not machine-checked; the native replay enumerates histories up to length 4 instead'],
@@ -255,6 +300,7 @@ def build(tier):
                         'gboost::evaluate overwrites `values` only; solver_t::minimize returns an arbitrary state; learner_t::fit_dataset touches the learner_t base only',
                         'wlearner::merge never increases the number of learners and keeps an empty list empty (C10); wlearner_t::clone copies the learner',
                         'ml::tune returns a result with trials() >= 1, 0 <= optimum_trial() < trials() (C13) and 1 <= folds() <= 1000; extra(trial, fold) holds the gboost::result_t the callback returned for (trial, fold) (C13)',
+                        'tensor contents are ghost identities in the try_merge targets: operator== on tensors / dims is equality of identities; m_tables.vector() += t adds t coefficient-wise (Eigen); the sum of two tables over the same hashes and mapping is the table of the sum of the functions',
                         'std::for_each / std::accumulate apply the operation once to every element of [first, last) in order; tensor_t::indexed(indices, out) gathers out(i) = self(indices(i))',
                         'every sample listed in the index lists handed to mean_error / mean_loss is a column of errors_losses (C12: splits of arange(0, samples)); index lists hold at most 2^31 - 1 samples',
                         'a fold model holds at most 10^6 learners (gboost::max_rounds domain); m_optims of ml::result_t is (2, 12) (its constructor, specs/C13/result_ctor.h); store(values, ..) is given a (2, n) tensor (::selected, proved here)'],
